@@ -589,6 +589,59 @@ def nshards(tier):
     return 16
 
 
+def run_served(acc):
+    """The scenario application behind clastic's development server: every (path, method) as a raw connection through
+    the server's own request handler (in-memory socket).  What the client reads off the wire is what the application
+    answered through WSGI: same status, same body, nothing after the headers for HEAD."""
+    from urllib.parse import quote
+    tmpdir = tempfile.mkdtemp(prefix='cv13s')
+    try:
+        for name, content in (('served.txt', b'static text file\n' * 50), ('noext', b'\x00\x01binary'), ('empty', b'')):
+            with open(os.path.join(tmpdir, name), 'wb') as f:
+                f.write(content)
+            os.utime(os.path.join(tmpdir, name), (MTIME, MTIME))
+        for variant in ('plain', 'gzip+cache'):
+            app = build_scenario(tmpdir, variant)
+            server = wsgi.DevServer(app)
+            try:
+                for path in PATHS:
+                    if path.startswith('//') or not path:
+                        continue
+                    for method in METHODS:
+                        body = b'x=1' if method == 'POST' else b''
+                        raw = ('%s %s HTTP/1.1\r\nHost: localhost\r\nConnection: close\r\n' % (method, quote(path.encode('utf-8'), safe='/'))).encode('ascii')
+                        if body:
+                            raw += b'Content-Length: %d\r\nContent-Type: application/x-www-form-urlencoded\r\n' % len(body)
+                        raw += b'\r\n' + body
+                        acc.evaluated += 1
+                        acc.transitions += 2
+                        acc.validated += 1
+                        case = {'part': 'served', 'variant': variant, 'path': path, 'method': method}
+                        direct = wsgi.call(app, path, method, body=body, headers={'Content-Type': 'application/x-www-form-urlencoded'} if body else None)
+                        try:
+                            code, head, wire = wsgi.dev_server_exchange(server, raw)
+                        except Exception as e:
+                            acc.violation('C13:served:raised-%s' % type(e).__name__, '%s %s through the development server raised %r' % (method, path, e), case)
+                            continue
+                        acc.outcome('served|%s|%s' % (variant, code))
+                        if direct.raised is not None:
+                            continue
+                        if code != direct.code:
+                            acc.violation('C13:served:status', '%s %s: the client reads status %s off the wire, the application answered %s'
+                                          % (method, path, code, direct.status), case)
+                        elif method == 'HEAD' and wire:
+                            acc.violation('C13:served:head-body', 'HEAD %s: %d bytes follow the headers on the wire' % (path, len(wire)), case)
+                        elif method != 'HEAD' and 'transfer-encoding: chunked' not in head.lower() and wire != (direct.body or b'') \
+                                and b'Traceback' not in wire and code != 500 and not path.startswith('/meta'):
+                            # (the meta pages show the time of day: two renderings differ)
+                            acc.violation('C13:served:body', '%s %s: %d body bytes on the wire, the application answered %d'
+                                          % (method, path, len(wire), len(direct.body or b'')), case)
+            finally:
+                server.close()
+    finally:
+        shutil.rmtree(tmpdir, ignore_errors=True)
+
+
 EH_HOWS = ('constructor', 'set', 'set-then-add', 'set-twice', 'set-then-reset')
 
 
@@ -639,6 +692,8 @@ def shard(tier, i, n, seed):
     acc = common.Acc()
     if i == 3 % n:
         run_error_handlers(acc)
+    if i == 4 % n:
+        run_served(acc)
     run_kinds(acc, i, n, tier)
     run_wrappers(acc, i, n, tier)
     run_sibling_wrappers(acc, i, n, tier)
@@ -661,6 +716,10 @@ def finish(tier, merged, results):
 def replay(case):
     common.setup_repo()
     acc = common.Acc()
+    if case.get('part') == 'served':
+        run_served(acc)
+        bad = [v for v in acc.violations if v['case'] == case]
+        return (False, bad[0]['desc'][:2000]) if bad else (True, 'ok')
     if case.get('part') == 'error-handlers':
         run_error_handlers(acc)
         bad = [v for v in acc.violations if v['case'] == case]
